@@ -34,7 +34,7 @@ type Streamer interface {
 type CachedStream struct {
 	stream                  Streamer
 	unusedDataFromLastFetch *iqr.IQR
-	isExhausted             bool
+	isExhausted             bool // The underlying stream returned EOF.
 }
 
 type SingleThreadedStream struct {
@@ -49,13 +49,15 @@ func NewCachedStream(stream Streamer) *CachedStream {
 }
 
 func (cs *CachedStream) Fetch() (*iqr.IQR, error) {
-	if cs.isExhausted {
-		return nil, io.EOF
-	}
-
 	if cs.unusedDataFromLastFetch != nil {
 		defer func() { cs.unusedDataFromLastFetch = nil }()
 		return cs.unusedDataFromLastFetch, nil
+	}
+
+	// Once the underlying stream returned EOF, don't fetch from it again; a
+	// stream that keeps its final result (e.g., sort) would return it again.
+	if cs.isExhausted {
+		return nil, io.EOF
 	}
 
 	iqr, err := cs.stream.Fetch()
@@ -74,14 +76,12 @@ func (cs *CachedStream) Rewind() {
 
 func (cs *CachedStream) SetUnusedDataFromLastFetch(iqr *iqr.IQR) {
 	cs.unusedDataFromLastFetch = iqr
-
-	if iqr != nil {
-		cs.isExhausted = false
-	}
 }
 
+// Whether there's nothing more to fetch; data handed back by
+// SetUnusedDataFromLastFetch() still counts.
 func (cs *CachedStream) IsExhausted() bool {
-	return cs.isExhausted
+	return cs.isExhausted && cs.unusedDataFromLastFetch == nil
 }
 
 func (cs *CachedStream) Cleanup() {
